@@ -305,6 +305,8 @@ class DRFNet(BayesianNetwork):
         # used for all bootstrap samples, so that source variables are
         # resampled independently of each other
         rng = np.random.default_rng(random_state)
+        # The forests draw from numpy's global generator when sampling
+        np.random.seed(random_state) if random_state is not None else None
         sampled_data = []
         for k in range(self.e):
             sample = np.zeros((n[k], self.p), dtype=float)
